@@ -197,12 +197,17 @@ def harness_bin(profile):
 
 def run_harness(profile, driver, outdir, tier, seed, extra=(), timeout=1500, env=None):
     os.makedirs(outdir, exist_ok=True)
+    crumb = os.path.join(outdir, "breadcrumb_%s_%s.txt" % (driver, profile))
+    if os.path.exists(crumb):
+        os.remove(crumb)
+    env = dict(env or {}); env["VERIF_BREADCRUMB"] = crumb
     rc, out = sh([harness_bin(profile), driver, "--out", outdir, "--tier", tier, "--seed", str(seed)] + list(extra), timeout=timeout, env=env)
     last = out.strip().splitlines()[-1] if out.strip() else ""
     try:
         return rc, json.loads(last), out
     except Exception:
-        return rc if rc else 1, None, out
+        where = open(crumb).read() if os.path.exists(crumb) else ""
+        return rc if rc else 1, None, out[-1500:] + ("\n[last case] " + where if where else "")
 
 # ------------------------------------------------------------------ model evaluation of case files
 def run_case_files(outdir, files, timeout=900):
